@@ -79,20 +79,36 @@ def run(ctx):
                 rr = [1] + [int(x) for x in rng.integers(1, r + 1, size=d - 1)] + [1]
                 Y = [rng.integers(-2, 3, size=(rr[k], n, rr[k + 1])).astype(float) for k in range(d)]
                 Fd = F.dense(Y)
-                Z = teneva.tt_to_qtt(Y, e=1e-14, r=100)
-                okw = F.is_wellformed(Z, [2] * (d * q))
-                ctx.case(key=('value', d, q, rr, rep), nontrivial=max(rr) >= 2)
-                if not ctx.check(okw, 'tt_to_qtt:wellformed', 'tt_to_qtt result malformed (d=%d q=%d ranks %s)' % (d, q, rr)):
-                    continue
-                Zd = F.dense(Z)
-                vals = Zd[tuple(keepB.T)]
-                ref = Fd[tuple(keepI.T)]
-                ctx.check(np.abs(vals - ref).max() <= 1e-9 * (1 + np.abs(ref).max()), 'tt_to_qtt:value',
-                          'entry of the QTT-tensor at the bits of i differs from the TT entry at i by %.2e (d=%d q=%d ranks %s)' % (np.abs(vals - ref).max(), d, q, rr))
-                zr = [1] + [G.shape[2] for G in Z]
-                ctx.check(all(zr[k * q] == rr[k] for k in range(d + 1)), 'tt_to_qtt:outer-bonds', 'bonds between modes %s differ from the TT-ranks %s' % ([zr[k * q] for k in range(d + 1)], rr))
-                W = teneva.qtt_to_tt(Z, q)
-                ctx.check(F.is_wellformed(W, [n] * d) and np.abs(F.dense(W) - Fd).max() <= 1e-9 * (1 + np.abs(Fd).max()), 'qtt_to_tt:roundtrip', 'qtt_to_tt(tt_to_qtt(Y)) differs from Y')
+                # the same integer tensor in several presentations: float64 / int64 / int32 cores, an exact power of two in
+                # one core or spread over the cores (entries ~1e-12 .. 1e+18), and unbalanced cores (1e-10 x 1e+10)
+                pres = [('float64', Y, 0), ('int64', [G.astype(np.int64) for G in Y], 0), ('int32', [G.astype(np.int32) for G in Y], 0),
+                        ('core 0 times 2^-40', [G * (2.0 ** -40 if k_ == 0 else 1.) for k_, G in enumerate(Y)], -40),
+                        ('all cores times 2^%d' % (-36 // d), [G * 2.0 ** (-36 // d) for G in Y], (-36 // d) * d),
+                        ('last core times 2^60', [G * (2.0 ** 60 if k_ == d - 1 else 1.) for k_, G in enumerate(Y)], 60),
+                        ('core 0 times 2^-33, core 1 times 2^33', [G * (2.0 ** -33 if k_ == 0 else 2.0 ** 33 if k_ == 1 else 1.) for k_, G in enumerate(Y)], 0)]
+                Yorig, Fd0 = Y, Fd
+                for pname, Yp, sp in ([pres[0]] + [pres[1 + (rep + j_) % 6] for j_ in range(2 if quick else 6)]):
+                    Fd = Fd0 * 2.0 ** sp
+                    Y = Yp
+                    try:
+                        Z = teneva.tt_to_qtt(Y, e=1e-14 * 2.0 ** sp, r=100)
+                    except Exception as ex:
+                        ctx.violation('tt_to_qtt:raises', 'tt_to_qtt on %s cores raised %s: %s' % (pname, type(ex).__name__, ex))
+                        continue
+                    okw = F.is_wellformed(Z, [2] * (d * q))
+                    ctx.case(key=('value', d, q, rr, rep, pname), nontrivial=max(rr) >= 2)
+                    if not ctx.check(okw, 'tt_to_qtt:wellformed', 'tt_to_qtt result malformed (d=%d q=%d ranks %s, %s)' % (d, q, rr, pname)):
+                        continue
+                    Zd = F.dense(Z)
+                    vals = Zd[tuple(keepB.T)]
+                    ref = Fd[tuple(keepI.T)]
+                    ctx.check(np.abs(vals - ref).max() <= 1e-9 * (2.0 ** sp + np.abs(ref).max()), 'tt_to_qtt:value',
+                              'entry of the QTT-tensor at the bits of i differs from the TT entry at i by %.2e (d=%d q=%d ranks %s, %s)' % (np.abs(vals - ref).max(), d, q, rr, pname))
+                    zr = [1] + [G.shape[2] for G in Z]
+                    ctx.check(all(zr[k * q] == rr[k] for k in range(d + 1)), 'tt_to_qtt:outer-bonds', 'bonds between modes %s differ from the TT-ranks %s (%s)' % ([zr[k * q] for k in range(d + 1)], rr, pname))
+                    W = teneva.qtt_to_tt(Z, q)
+                    ctx.check(F.is_wellformed(W, [n] * d) and np.abs(F.dense(W) - Fd).max() <= 1e-9 * (2.0 ** sp + np.abs(Fd).max()), 'qtt_to_tt:roundtrip', 'qtt_to_tt(tt_to_qtt(Y)) differs from Y (%s)' % pname)
+                Y, Fd = Yorig, Fd0
                 for cap in (1, 2, 3):
                     for e_ in (1e-12, 1e-2):
                         Zc = teneva.tt_to_qtt(Y, e=e_, r=cap)
